@@ -46,7 +46,7 @@ _Q = {"linearity_checked": 1000, "area_checked": 2000, "sign_checked": 1300, "ma
       "tail_checked:seq:det:std": 200, "modulated_sample_calls": 1400, "modulated_sample_calls_with_empty_channel": 600,
       "modulated_lengths_checked": 2200, "modulated_lengths_checked_with_bandwidth": 1100,
       "eom_block_outputs_compared": 200, "two_channel_separations_checked": 100, "keep_ends_checked:eom": 100,
-      "per_atom_outputs_after_mode_change_checked": 80}
+      "per_atom_outputs_after_mode_change_checked": 80, "pushed_phase_jumps_checked": 200}
 FLOORS = {"quick": _Q, "thorough": {k: 10 * v for k, v in _Q.items()}}
 
 BW_POOL = [0.3, 0.5, 0.77, 1.3, 2.0, 4.0, 5.0, 8.0, 13.7, 20.0, 40.0, 60.0]
@@ -713,11 +713,65 @@ def case_prog(ctx, rng):
     ctx.sample(r.prog)
 
 
+def case_pushed_phase_jump(ctx, rng):
+    """One channel plays P1 and then P2 of another phase (P2 waits for P1's fall time and the phase-jump time); in a
+    second copy a pulse on ANOTHER channel sharing the atom ends shortly after P1, pushing P2 back by less than that
+    wait. An extra constraint can only delay P2: it never starts earlier than in the first copy, nor before P1's
+    fall time has elapsed."""
+    ca, cb = channel_spec(rng, eom_p=0.0), channel_spec(rng, eom_p=0.0)
+    ca["id"], cb["id"] = "rga", "rgb"
+    if rng.random() < 0.6:
+        ca["custom_phase_jump_time"] = gen.pick(rng, [0, 0, 8, 40])
+    dev = {"kind": "virtual", "name": "TwoDev", "dimensions": 2, "rydberg_level": 70, "min_atom_distance": 1,
+           "max_atom_num": None, "max_radial_distance": None, "channels": [ca, cb], "dmm": []}
+    reg = {"kind": "reg", "ids": ["q0"], "coords": [[0.0, 0.0]]}
+    d1, d2 = gen.pick(rng, [16, 60, 100]), gen.pick(rng, [16, 52])
+    proto = gen.pick(rng, ["min-delay", "wait-for-all"])
+    p1 = fall_pulse(rng, ca, d1)
+    p2 = dict(gen.gen_pulse(rng, ca, d=d2, arb=0, pps_p=0), phase=gen.pick(rng, [1.0, math.pi, 4.5]))
+    rise_a = F.rise_time(ca["mod_bandwidth"])
+    push = gen.pick(rng, [1, max(1, rise_a // 2), rise_a, 2 * rise_a, 3 * rise_a])  # how far behind P1's end the other pulse ends
+    starts = {}
+    for variant in ("alone", "pushed"):
+        r = prog.Runner(ctx, dev, reg, [], meta={"family": "pushed-phase-jump", "variant": variant})
+        ops = [{"op": "declare_channel", "name": "a", "ch_id": "rga"}, {"op": "declare_channel", "name": "b", "ch_id": "rgb"},
+               {"op": "delay", "duration": 16, "ch": "a"}, {"op": "add", "pulse": p1, "ch": "a"}]
+        if variant == "pushed":
+            # b's pulse: zero amplitude, constant zero detuning (no fall time of its own), ending `push` ns after P1
+            ops += [{"op": "delay", "duration": 16 + d1 + push - 4, "ch": "b"},
+                    {"op": "add", "pulse": {"amp": {"k": "const", "d": 4, "v": 0.0}, "det": {"k": "const", "d": 4, "v": 0.0},
+                                            "phase": 0.0}, "ch": "b", "protocol": "no-delay"}]
+        ops.append({"op": "add", "pulse": p2, "ch": "a", "protocol": proto})
+        for op in ops:
+            if r.step(op).exc is not None:
+                ctx.count("pushed_phase_jump_setup_refused")
+                return
+        if variant == "pushed":
+            ctx.sample(r.prog)
+        sl = [s for s in snapshot(r.seq)["chans"]["a"]["slots"] if s["kind"] == "pulse"]
+        if len(sl) < 2:
+            ctx.count("pushed_phase_jump_setup_refused")
+            return
+        starts[variant] = (sl[-2]["tf"], sl[-1]["ti"], int(sl[-2]["pulse"].fall_time(r.seq.declared_channels["a"])))
+    (tf1, s_alone, fall), (_, s_pushed, _) = starts["alone"], starts["pushed"]
+    ctx.count("pushed_phase_jumps_checked")
+    if tf1 + push > s_alone:
+        ctx.count("pushed_phase_jumps_where_the_other_pulse_decides")
+    if s_pushed < s_alone or s_pushed < tf1 + fall:
+        ctx.violation("separation", f"P2 (another phase, {proto}) starts at {s_alone} after P1 (end {tf1}, fall time {fall}) on "
+                      f"its own, but at {s_pushed} when a pulse on another channel ending at {tf1 + push} has to be waited "
+                      f"for as well (bandwidth {ca['mod_bandwidth']}, custom phase-jump time {ca.get('custom_phase_jump_time')})",
+                      "phase-jump-wait-shortened-by-other-channel")
+
+
 CASES = {"laws": case_laws, "tone": case_tone, "ref": case_ref, "fall-wf": case_fall_wf, "fall-seq": case_fall_seq,
          "prog": case_prog, "eom-blocks": case_eom_blocks, "two-channels": case_two_channels}
 
 
 def run_case(ctx, idx, rng, tier):
+    if idx % 25 == 7:
+        ctx.count("cases:pushed-phase-jump")
+        return case_pushed_phase_jump(ctx, rng)
     fam = gen.wchoice(rng, FAMILIES)
     ctx.count("cases:" + fam)
     CASES[fam](ctx, rng)
